@@ -1230,6 +1230,11 @@ func (r *Raft) election() {
 func (r *Raft) sendRequestVoteToPeers() {
 	// Handle the single node cluster case.
 	if r.isSingleServerCluster() {
+		// There are no other voters to hold a prevote with. The node must still enter
+		// the candidate state so that it leads in a new term that it has voted for itself in.
+		if r.state == PreCandidate {
+			r.becomeCandidate()
+		}
 		r.becomeLeader()
 		return
 	}
